@@ -2,6 +2,7 @@ package accessor
 
 import (
 	"fmt"
+	"reflect"
 
 	"github.com/tidwall/gjson"
 	"github.com/tidwall/sjson"
@@ -38,23 +39,30 @@ func (ja *JSONAccessor) Set(key string, value interface{}) error {
 }
 
 func checkJSONValueType(jsonValue gjson.Result, key string, value interface{}) error {
-	switch value.(type) {
-	case string:
-		if jsonValue.Type != gjson.String {
-			return fmt.Errorf("tried to set field %s (%s) to a %T value", key, jsonValue.Type.String(), value)
-		}
-	case int, int8, int16, int32, int64, uint, uint8, uint16, uint32, uint64, float32, float64:
-		if jsonValue.Type != gjson.Number {
-			return fmt.Errorf("tried to set field %s (%s) to a %T value", key, jsonValue.Type.String(), value)
-		}
-	case bool:
-		if jsonValue.Type != gjson.True && jsonValue.Type != gjson.False {
-			return fmt.Errorf("tried to set field %s (%s) to a %T value", key, jsonValue.Type.String(), value)
-		}
-	case []string:
-		if !jsonValue.IsArray() {
-			return fmt.Errorf("tried to set field %s (%s) to a %T value", key, jsonValue.Type.String(), value)
-		}
+	// Compare by kind, so that values of named types and the values that JSON
+	// decoders deliver ([]interface{}, map[string]interface{}) are checked too.
+	matches := true
+	kind := reflect.ValueOf(value).Kind()
+	if _, isBytes := value.([]byte); isBytes {
+		// sjson stores a byte slice as a string.
+		kind = reflect.String
+	}
+	switch kind { // nolint:exhaustive
+	case reflect.String:
+		matches = jsonValue.Type == gjson.String
+	case reflect.Int, reflect.Int8, reflect.Int16, reflect.Int32, reflect.Int64,
+		reflect.Uint, reflect.Uint8, reflect.Uint16, reflect.Uint32, reflect.Uint64,
+		reflect.Float32, reflect.Float64:
+		matches = jsonValue.Type == gjson.Number
+	case reflect.Bool:
+		matches = jsonValue.Type == gjson.True || jsonValue.Type == gjson.False
+	case reflect.Slice, reflect.Array:
+		matches = jsonValue.IsArray()
+	case reflect.Map, reflect.Struct:
+		matches = jsonValue.IsObject()
+	}
+	if !matches {
+		return fmt.Errorf("tried to set field %s (%s) to a %T value", key, jsonValue.Type.String(), value)
 	}
 	return nil
 }
